@@ -1,23 +1,39 @@
 """C09 — parameter listings follow the fit ranking, for any parameter-file order.
 
-Real side: a small distance-independent package (convolved/*.fits written by the harness, parameters.fits
-with 1–4 numeric columns in an arbitrary row order, names optionally blank-padded); fit results either from
-`Fitter.fit` or built directly (`FitInfo` with meta pointing at the package); then `write_parameters`,
-`write_parameter_ranges`, `extract_parameters` and `FitInfo.filter_table` (on the stripped + name-sorted table, as
-the parameter plots call it), with the results given as a file / a single FitInfo / a list.  A case is a call
-*history*: 1-3 successive rounds of the four consumers on the SAME input (the same file, the same object, the same
-list) with different selectors (narrow then wide, wide then narrow, repeated).  The text outputs of EVERY round are
-parsed back and every printed row is looked up *by model name* in the original table; the expected selection of
-every round is computed from a snapshot of the ORIGINAL fit results taken before the first call.
+Real side: a small distance-independent package (convolved/*.fits written by the harness, parameters.fits with
+1–4 numeric columns in an arbitrary row order, names optionally blank-padded, optionally extra rows for models the
+package's fits never name, optionally NaN / ±inf cells); fit results either from `Fitter.fit` or built directly
+(`FitInfo` with meta pointing at the package; directly built ones may carry NaN / ±inf in chi2, av, sc); then
+`write_parameters`, `write_parameter_ranges`, `extract_parameters`, `FitInfo.filter_table` (on the stripped +
+name-sorted table) and — the clause "the table handed to the parameter plots" — `plot_params_1d` and
+`plot_params_2d` themselves, with the results given as a file / a single FitInfo / a list.  What the two plot
+functions draw is observed without touching sedfitter: `matplotlib.figure.Figure.savefig` is wrapped for the
+duration of the call and records, per saved source, the hatched `Polygon` of `plot_params_1d` (its vertices are the
+histogram of the selected fits' parameter values over the bin edges) and the scatter `PathCollection` of
+`plot_params_2d` (its offsets are the two parameters of the selected fits).
 
-Model side: driver `filtertable` (= `prepTable` + `filterTableAdd`) predicts, for the selected fit names, which
-row of the parameter file is shown in each line and which additional values are attached; `ranges`
-(= `paramRanges`) predicts min / best / max; `parcounts` (= `counts`) predicts n_data / n_fits.
+A case is a call *history*: 1-3 successive rounds of the consumers on the SAME input (the same file, the same
+object, the same list) with different selectors (narrow then wide, wide then narrow, repeated).  The outputs of
+EVERY round are parsed back to numbers (compared at the precision they are printed with) and every row is looked up
+*by model name* in the original table; the expected selection of every round is computed from a snapshot of the
+ORIGINAL fit results taken before the first call.  Pure print-layout differences (header tokens, placeholders,
+token counts) are reported as model/implementation disagreements, not as property violations.
+
+Compared refusals (one round): an `additional` key that is already a table column (the code raises "already
+exists"), a dictionary that lacks a selected model (KeyError), a table without MODEL_NAME handed to `filter_table`
+(ValueError); the model (`filterTableFull`) predicts the refusal and its kind.
+
+Model side: driver `filtertable` / `filtertablefull` (= `prepTable` + `filterTableAdd` / `filterTableFull`) predicts,
+for the selected fit names, which row of the parameter file is shown in each line and which additional values are
+attached; `ranges` (= `paramRangesEF`: nanmin / [0] / nanmax on doubles incl. NaN, ±inf) predicts min / best / max;
+`parcounts` (= `counts`) predicts n_data / n_fits.
 """
 import math
 import os
 import shutil
 import tempfile
+
+os.environ.setdefault('MPLBACKEND', 'Agg')
 
 import numpy as np
 
@@ -28,13 +44,17 @@ from .c07 import gen_names, enc, names_line, read_names
 
 PID = 'C09'
 RULE = ('cases = (model names, row order of the convolved files, row order and blank padding of parameters.fits, 1-4 '
-        'numeric columns, optional additional dictionaries, 1-3 fit results from Fitter.fit or built directly, a '
+        'numeric columns possibly holding NaN / +-inf, optional extra table rows, optional additional dictionaries, '
+        '1-3 fit results from Fitter.fit or built directly (then possibly with NaN / +-inf in chi2, av, sc), a '
         'selector of every form with a threshold placed between attained values so that 0..all fits are selected, '
-        'input form file / single / list, 0-2 further rounds on the same input with other selectors) drawn from the '
-        'quantifier of C09; non-trivial = at least 2 models and at '
-        'least 1 selected fit whose table row is not at the same position as its rank; distinct = distinct '
-        'canonical hash of the generated inputs')
+        'input form file / single / list, 0-2 further rounds on the same input with other selectors, the text '
+        'writers, filter_table and both parameter plots) drawn from the quantifier of C09, plus compared refusals; '
+        'non-trivial = at least 2 models and at least 1 selected fit whose table row is not at the same position '
+        'as its rank; distinct = distinct canonical hash of the generated inputs')
 REQUIRED_BRANCHES = ['write_parameters', 'write_parameter_ranges', 'extract_parameters', 'filter_table',
+                     'plot_params_1d', 'plot_params_2d', 'plot_1d_log_x', 'plot_1d_additional',
+                     'plots_input_file', 'plots_input_single', 'plots_input_list', 'plots_selected_0',
+                     'plots_selected_some', 'plots_padded_unsorted_table',
                      'input_file', 'input_single', 'input_list',
                      'sel_A', 'sel_N', 'sel_C', 'sel_D', 'sel_E', 'sel_F',
                      'selected_0', 'selected_some', 'selected_all',
@@ -42,18 +62,30 @@ REQUIRED_BRANCHES = ['write_parameters', 'write_parameter_ranges', 'extract_para
                      'cols_1', 'cols_4', 'fits_from_fitter', 'fits_direct', 'extract_all', 'extract_subset',
                      'models_1', 'models_8',
                      'history_1', 'history_2', 'history_3', 'narrow_then_wide_single', 'narrow_then_wide_list',
-                     'narrow_then_wide_file', 'wide_then_narrow', 'repeated_selector']
-ASSUMPTIONS = ['text outputs are compared at the precision they are printed with (%10.3e / %10.3f / %11.3e): the '
-               'expected number is formatted the same way and the strings must be equal',
+                     'narrow_then_wide_file', 'wide_then_narrow', 'repeated_selector',
+                     'extra_table_rows', 'param_nan', 'param_inf', 'fit_nan', 'fit_inf', 'range_all_nan',
+                     'refuse_dup_column', 'refuse_missing_key', 'missing_key_not_selected', 'refuse_no_model_name']
+ASSUMPTIONS = ['text outputs are parsed back to numbers and compared at the precision they are printed with '
+               '(%10.3e / %10.3f / %11.3e); layout-only differences are not property violations',
                'selector thresholds are placed between attained values (C05 owns the selection rule itself)',
                'numpy / astropy order U-strings by code point, as the model orders String',
-               'the sign of a floating-point zero is not modelled (exact rationals); generated inputs contain no -0.0']
+               'the sign of a floating-point zero is not modelled (exact rationals); generated inputs contain no -0.0',
+               'refusals are compared by exception class (ValueError / KeyError / IndexError / plain Exception), '
+               'not by message',
+               'the plots are observed through matplotlib artists at savefig time (hatched Polygon, scatter '
+               'offsets); the grey "all models" layers are not examined; plotted columns are finite']
 EXHAUSTIVE = {'quick': False, 'thorough': True}
 N = {'quick': 600, 'thorough': 8000}
 FLAGS = [0, 1, 2, 3, 4, 9]
 COLNAMES = ['PAR1', 'Q2', 'LOGX', 'T4']
 EXT_W = [0.05, 0.3, 0.55, 1., 3., 10., 50., 3000.]
 EXT_CHI = [2000., 600., 300., 120., 40., 20., 8., 1.]
+SPECIALS = ['nan', 'inf', '-inf']
+
+
+def fv(x):
+    """a generated value: a float, or one of the strings 'nan' / 'inf' / '-inf'"""
+    return float(x)
 
 
 # ----------------------------------------------------------------------------- generation
@@ -92,6 +124,12 @@ def gen_source(rng, nb, idx):
                 flags=flags, flux=flux, err=err)
 
 
+
+def sprinkle(rng, vals, p):
+    """replace some entries by NaN / +-inf (as strings, so that the case stays plain JSON)"""
+    return [rng.choice(SPECIALS + ['nan']) if rng.random() < p else v for v in vals]
+
+
 def gen_case(rng, directed=None, table_perm=None, n=None):
     directed = directed or {}
     n = n or directed.get('n') or rng.randint(1, 8)
@@ -102,13 +140,29 @@ def gen_case(rng, directed=None, table_perm=None, n=None):
     rng.shuffle(table)
     if table_perm is not None:
         table = [names[i] for i in table_perm]
+    ncols = directed.get('ncols') or rng.randint(1, 4)
+    cols = {COLNAMES[j]: distinct_values(rng, n) for j in range(ncols)}         # value per model index
+    # rows of the parameter file for models that no fit ever names (np.isin really has to drop something)
+    nextra = directed.get('nextra', rng.choice([0, 0, 0, 1, 2, 4]) if table_perm is None else 0)
+    extra = []
+    while len(extra) < nextra:
+        x = gen_names(rng, 1, False)[0]
+        if x not in names and x not in [e[0] for e in extra]:
+            extra.append([x, {c: nice(rng, 1e-3, 1e5, 3) for c in cols}])
+    for e in extra:
+        table.insert(rng.randint(0, len(table)), e[0])
     pad = directed.get('pad', rng.random() < 0.5)
     table_names = [t + (' ' * rng.randint(1, max(1, min(3, 30 - len(t)))) if pad and len(t) < 30 and rng.random() < 0.6 else '')
                    for t in table]
-    ncols = directed.get('ncols') or rng.randint(1, 4)
-    cols = {COLNAMES[j]: distinct_values(rng, n) for j in range(ncols)}         # value per model index
+    special = directed.get('special', rng.random() < 0.2)
+    if special:
+        for c in list(cols)[rng.randint(0, 1):]:          # sometimes the first column stays finite (for the plots)
+            cols[c] = sprinkle(rng, cols[c], 1. if (n > 1 and rng.random() < 0.15) else 0.35)
     nadd = directed.get('nadd', rng.choice([0, 0, 1, 1, 2]))
     additional = {['extra', 'bonus'][j]: dict(zip(names, distinct_values(rng, n))) for j in range(nadd)}
+    if special and additional and rng.random() < 0.5:
+        k0 = list(additional)[0]
+        additional[k0] = dict(zip(names, sprinkle(rng, list(additional[k0].values()), 0.4)))
     nb = rng.randint(3, 5)
     mode = directed.get('mode', rng.choice(['fitter', 'direct']))
     form = directed.get('form', rng.choice(['file', 'single', 'list']))
@@ -119,6 +173,10 @@ def gen_case(rng, directed=None, table_perm=None, n=None):
         s['chi2'] = distinct_values(rng, n, signed=False)
         s['av'] = [round(rng.uniform(0, 20), 3) + 0. for _ in range(n)]
         s['sc'] = [round(rng.uniform(-2, 2), 3) + 0. for _ in range(n)]       # + 0.: no negative zero
+        if special and mode == 'direct':
+            s['chi2'] = [rng.choice(['nan', 'inf']) if rng.random() < 0.3 else v for v in s['chi2']]
+            s['av'] = sprinkle(rng, s['av'], 0.25)
+            s['sc'] = sprinkle(rng, s['sc'], 0.25)
         sources.append(s)
     wavs = sorted({nice(rng, 0.4, 200., 3) for _ in range(nb)})
     while len(wavs) < nb:
@@ -159,30 +217,64 @@ def gen_case(rng, directed=None, table_perm=None, n=None):
         pool = list(cols) + ['MODEL_NAME']
         rng.shuffle(pool)
         ex = pool[:rng.randint(1, len(pool))]
-    return dict(names=names, conv=conv, table=table_names, cols=cols, additional=additional, wavs=wavs, models=models,
-                mode=mode, form=form, sources=sources, sel=kind, target=target, more=more, extract=ex,
-                header=rng.random() < 0.7, suffix=rng.choice([None, '.txt']), as_tuple=rng.random() < 0.3)
+    # the two parameter plots: on finite columns only
+    finite_cols = [c for c in cols if all(not isinstance(v, str) for v in cols[c])]
+    plots = None
+    if finite_cols and directed.get('plots', rng.random() < 0.4):
+        p1 = rng.choice(finite_cols)
+        allv = [cols[p1][i] for i in range(n)] + [e[1][p1] for e in extra]
+        plots = dict(p1=p1, bins=rng.choice([4, 10, 30]), log_x=bool(min(allv) > 0 and rng.random() < 0.5),
+                     px=rng.choice(finite_cols), py=rng.choice(finite_cols),
+                     explicit=bool(rng.random() < 0.3 or len(allv) < 2))
+    # compared refusals: one round, no plots
+    defect = directed.get('defect')
+    if defect is None and 'sel' not in directed and 'more' not in directed and table_perm is None and rng.random() < 0.08:
+        defect = rng.choice(['dup_key', 'missing_key', 'missing_key', 'no_model_name'])
+    if defect:
+        more, plots = [], None
+        if defect == 'dup_key':
+            additional = dict(additional)
+            additional[rng.choice(list(cols))] = dict(zip(names, distinct_values(rng, n)))
+            if rng.random() < 0.5:      # refused key first
+                additional = dict(reversed(list(additional.items())))
+        elif defect == 'missing_key':
+            if not additional:
+                additional = {'extra': dict(zip(names, distinct_values(rng, n)))}
+            k0 = rng.choice(list(additional))
+            miss = rng.choice(names)
+            additional[k0] = {k: v for k, v in additional[k0].items() if k != miss}
+    return dict(names=names, conv=conv, table=table_names, cols=cols, extra=extra, additional=additional, wavs=wavs,
+                models=models, mode=mode, form=form, sources=sources, sel=kind, target=target, more=more, extract=ex,
+                header=rng.random() < 0.7, suffix=rng.choice([None, '.txt']), as_tuple=rng.random() < 0.3,
+                plots=plots, defect=defect)
 
 
 DIRECTED = [
-    dict(n=1, ncols=1, nadd=0, mode='direct', form='single', sel='A', pad=False, extract='all'),
-    dict(n=8, ncols=4, nadd=2, mode='fitter', form='file', sel='N', target=3, pad=True, extract=['Q2', 'MODEL_NAME']),
-    dict(n=5, ncols=2, nadd=1, mode='fitter', form='list', sel='C', target=2, pad=True),
-    dict(n=4, ncols=3, nadd=1, mode='direct', form='file', sel='D', target=0, pad=False),
-    dict(n=6, ncols=4, nadd=0, mode='direct', form='list', sel='E', target=6, pad=True),
-    dict(n=3, ncols=1, nadd=2, mode='fitter', form='single', sel='F', target=1, pad=False),
-    dict(n=4, ncols=2, nadd=1, mode='fitter', form='file', sel='N', target=0, pad=True),
-    dict(n=7, ncols=3, nadd=0, mode='direct', form='single', sel='C', target=0, pad=True),
+    dict(n=1, ncols=1, nadd=0, mode='direct', form='single', sel='A', pad=False, extract='all', plots=True),
+    dict(n=8, ncols=4, nadd=2, mode='fitter', form='file', sel='N', target=3, pad=True, extract=['Q2', 'MODEL_NAME'],
+         plots=True, nextra=2, special=False),
+    dict(n=5, ncols=2, nadd=1, mode='fitter', form='list', sel='C', target=2, pad=True, plots=True, special=False),
+    dict(n=4, ncols=3, nadd=1, mode='direct', form='file', sel='D', target=0, pad=False, plots=True, special=False),
+    dict(n=6, ncols=4, nadd=0, mode='direct', form='list', sel='E', target=6, pad=True, special=True, nextra=3),
+    dict(n=3, ncols=1, nadd=2, mode='fitter', form='single', sel='F', target=1, pad=False, plots=True, special=False),
+    dict(n=4, ncols=2, nadd=1, mode='fitter', form='file', sel='N', target=0, pad=True, special=True),
+    dict(n=7, ncols=3, nadd=0, mode='direct', form='single', sel='C', target=0, pad=True, plots=True, special=False),
+    dict(n=6, ncols=3, nadd=1, mode='direct', form='list', sel='A', target=6, pad=True, special=True),
+    dict(n=5, ncols=2, nadd=1, mode='direct', form='file', sel='N', target=4, pad=False, special=True, nextra=1),
 ]
 # call histories on the same input: narrow -> wide, wide -> narrow, repeated, three rounds; every input form
 for _form in ('single', 'list', 'file'):
     DIRECTED += [
-        dict(n=6, form=_form, mode='direct', sel='N', target=1, more=[['A', 6]], nadd=1),
+        dict(n=6, form=_form, mode='direct', sel='N', target=1, more=[['A', 6]], nadd=1, plots=True, special=False, pad=True),
         dict(n=5, form=_form, mode='fitter', sel='C', target=2, more=[['N', 4]], ncols=2),
-        dict(n=4, form=_form, mode='direct', sel='F', target=0, more=[['D', 3]]),
+        dict(n=4, form=_form, mode='direct', sel='F', target=0, more=[['D', 3]], plots=True, special=False, pad=True),
         dict(n=6, form=_form, mode='fitter', sel='A', target=6, more=[['N', 2]], nadd=2),
         dict(n=5, form=_form, mode='direct', sel='E', target=3, more=[['E', 3]]),
         dict(n=7, form=_form, mode='direct', sel='N', target=2, more=[['C', 5], ['N', 1]], nadd=1),
+        dict(n=5, form=_form, mode='direct', sel='N', target=3, defect='dup_key', nadd=1, special=False),
+        dict(n=5, form=_form, mode='fitter', sel='A', target=5, defect='missing_key', nadd=1, special=False),
+        dict(n=6, form=_form, mode='direct', sel='N', target=1, defect='missing_key', nadd=2, special=False),
+        dict(n=4, form=_form, mode='direct', sel='N', target=2, defect='no_model_name', special=False),
     ]
 
 
@@ -198,7 +290,7 @@ def gen_cases(seed, tier):
             rng = case_rng(seed, PID, i)
             n = rng.randint(3, 8)
             t = {'zero': 0, 'some': rng.randint(1, n - 1), 'all': n}[tgt]
-            yield gen_case(rng, directed=dict(n=n, sel=kind, target=t))
+            yield gen_case(rng, directed=dict(n=n, sel=kind, target=t, special=False, plots=(tgt != 'all')))
             i += 1
     # every row permutation of the parameter file (<= 4 models in the thorough tier, <= 3 in quick)
     for n in range(1, 5 if tier == 'thorough' else 4):
@@ -212,10 +304,18 @@ def gen_cases(seed, tier):
 
 # ----------------------------------------------------------------------------- real side
 
+def table_values(case):
+    """the original parameter table, by (stripped) model name: name -> [value per column]"""
+    cols = list(case['cols'])
+    t = {nme: [fv(case['cols'][c][i]) for c in cols] for i, nme in enumerate(case['names'])}
+    for nme, vals in case.get('extra', []):
+        t[nme] = [fv(vals[c]) for c in cols]
+    return t
+
+
 def build(case, d):
     """package + fit results; returns (model_dir, infos)"""
     names = case['names']
-    n = len(names)
     md = os.path.join(d, 'models')
     os.makedirs(md)
     pk.write_conf(md, aperture_dependent=False)
@@ -225,8 +325,9 @@ def build(case, d):
         fn = 'F%d' % j
         fnames.append(fn)
         pk.write_convolved(md, fn, w, case['conv'], [[case['models'][i][j]] for i in idx], [[0.] for _ in idx])
-    tidx = [names.index(t.strip()) for t in case['table']]
-    pk.write_parameters(md, case['table'], {c: [v[i] for i in tidx] for c, v in case['cols'].items()})
+    tv = table_values(case)
+    cols = list(case['cols'])
+    pk.write_parameters(md, case['table'], {c: [tv[t.strip()][j] for t in case['table']] for j, c in enumerate(cols)})
     ext = pk.make_extinction(EXT_W, EXT_CHI)
     infos = []
     if case['mode'] == 'fitter':
@@ -239,21 +340,24 @@ def build(case, d):
         filters = [dict(aperture_arcsec=1., name=fn, wav=w) for fn, w in zip(fnames, case['wavs'])]
         meta = (md, filters, ext)
         for s in case['sources']:
-            info = pk.make_fitinfo(case['conv'], [s['chi2'][i] for i in idx], av=[s['av'][i] for i in idx],
-                                   sc=[s['sc'][i] for i in idx], flags=s['flags'], source_name=s['name'], meta=meta)
+            with np.errstate(all='ignore'):
+                info = pk.make_fitinfo(case['conv'], [fv(s['chi2'][i]) for i in idx], av=[fv(s['av'][i]) for i in idx],
+                                       sc=[fv(s['sc'][i]) for i in idx], flags=s['flags'], source_name=s['name'],
+                                       meta=meta)
             infos.append(info)
     return md, infos
 
 
 def measure(kind, chi2, n_data):
     c = np.asarray(chi2, dtype=float)
-    if kind == 'C':
-        return c
-    if kind == 'D':
-        return c - c[0]
-    if kind == 'E':
-        return c / n_data
-    return (c - c[0]) / n_data
+    with np.errstate(all='ignore'):
+        if kind == 'C':
+            return c
+        if kind == 'D':
+            return c - c[0]
+        if kind == 'E':
+            return c / n_data
+        return (c - c[0]) / n_data
 
 
 def rounds(case):
@@ -261,21 +365,22 @@ def rounds(case):
 
 
 def make_selector(case, ranked, kind=None, tgt=None):
-    """selector tuple; thresholds lie between attained values of the first source"""
+    """selector tuple; thresholds lie between attained (finite) values of the first source"""
     if kind is None:
         kind, tgt = case['sel'], case['target']
-    n = len(case['names'])
     if kind == 'A':
         return ('A', 0)
     if kind == 'N':
         return ('N', tgt)
     c0, nd0 = ranked[0]['chi2'], ranked[0]['n_data']
     m = measure(kind, c0, nd0)
+    m = m[np.isfinite(m)]
+    n = len(m)
+    if n == 0:
+        return (kind, 1.)
     tgt = min(tgt, n)
     if tgt == 0:
-        x = (m[0] - 1.) if kind in ('D', 'F') else m[0] * 0.5
-        if kind in ('D', 'F'):
-            x = -1.
+        x = -1. if kind in ('D', 'F') else m[0] * 0.5
     elif tgt >= n:
         x = m[-1] * 2. + 1.
     else:
@@ -284,8 +389,8 @@ def make_selector(case, ranked, kind=None, tgt=None):
 
 
 def expected_count(sel, chi2, n_data):
-    """number of selected fits, straight from the documented meaning of the selector; second value: smallest
-    relative distance of the threshold from an attained value"""
+    """number of selected fits, straight from the documented meaning of the selector (comparisons with NaN are
+    false); second value: smallest relative distance of the threshold from an attained value"""
     kind, x = sel
     n = len(chi2)
     if n == 0:
@@ -295,8 +400,10 @@ def expected_count(sel, chi2, n_data):
     if kind == 'N':
         return min(int(x), n), 1.
     m = measure(kind, chi2, n_data)
-    k = int(np.sum(m <= x))
-    marg = float(np.min(np.abs(m - x) / (1e-300 + np.maximum(np.abs(m), abs(x)))))
+    with np.errstate(all='ignore'):
+        k = int(np.sum(m <= x))
+        fin = m[np.isfinite(m)]
+        marg = float(np.min(np.abs(fin - x) / (1e-300 + np.maximum(np.abs(fin), abs(x))))) if len(fin) else 1.
     return k, marg
 
 
@@ -312,16 +419,36 @@ def ranked_view(infos):
     return out
 
 
-def e3(v):
-    return ('%10.3e' % v).strip()
+# ---- numbers at printed precision
+
+def tok_num(tok):
+    try:
+        return float(tok)
+    except (TypeError, ValueError):
+        return None
 
 
-def f3(v):
-    return ('%10.3f' % v).strip()
+def same_num(tok, v, fmt):
+    """the printed token, read back as a number, equals `v` at the precision of `fmt`"""
+    t = tok_num(tok)
+    if t is None:
+        return False
+    v = float(v)
+    if math.isnan(v):
+        return math.isnan(t)
+    if math.isinf(v):
+        return t == v
+    return t == float(fmt % v)
 
 
-def e11(v):
-    return ('%11.3e' % v).strip()
+def nanmin_(s):
+    f = [x for x in s if not math.isnan(x)]
+    return min(f) if f else float('nan')
+
+
+def nanmax_(s):
+    f = [x for x in s if not math.isnan(x)]
+    return max(f) if f else float('nan')
 
 
 def parse_write_parameters(path):
@@ -332,7 +459,7 @@ def parse_write_parameters(path):
     while i < len(lines) and lines[i].strip():
         t = lines[i].split()
         name, nd, nf = t[0], int(t[1]), int(t[2])
-        rows = [lines[i + 1 + r].split() for r in range(nf)]
+        rows = [lines[i + 1 + r].split() for r in range(nf) if i + 1 + r < len(lines)]
         blocks.append(dict(name=name, n_data=nd, n_fits=nf, rows=rows))
         i += 1 + nf
     return head, blocks
@@ -366,33 +493,97 @@ def make_input(case, d, infos):
     return tuple(infos) if case['as_tuple'] else list(infos)
 
 
+def additional_arg(case):
+    return {k: {n: fv(v) for n, v in d.items()} for k, d in case['additional'].items()}
+
+
+def prepared_table(md):
+    """what every consumer does to the parameter file before use (astropy / numpy calls only)"""
+    from sedfitter.models import load_parameter_table
+    t = load_parameter_table(md)
+    t['MODEL_NAME'] = np.char.strip(t['MODEL_NAME'])
+    t.sort('MODEL_NAME')
+    return t
+
+
+def capture_plots(fn):
+    """run `fn()` with matplotlib's Figure.savefig replaced by a recorder: for every figure "saved", the vertices of
+    the hatched patches and the offsets of the scatter collections on it.  Nothing of sedfitter is patched."""
+    from matplotlib.figure import Figure
+    import matplotlib.pyplot as plt
+    rec = []
+    orig = Figure.savefig
+
+    def recorder(self, fname, *a, **k):
+        r = dict(file=os.path.basename(str(fname)), hatched=[], scatter=[])
+        for ax in self.axes:
+            for p in ax.patches:
+                if p.get_hatch():
+                    r['hatched'].append(np.array(p.get_xy(), dtype=float))
+            for c in ax.collections:
+                r['scatter'].append(np.array(np.ma.getdata(c.get_offsets()), dtype=float).reshape(-1, 2))
+        rec.append(r)
+
+    Figure.savefig = recorder
+    try:
+        fn()
+    finally:
+        Figure.savefig = orig
+        plt.close('all')
+    return rec
+
+
+def call_plots(case, d, src, sel):
+    from sedfitter import plot_params_1d, plot_params_2d
+    pl = case['plots']
+    add = additional_arg(case)
+    tv = table_values(case)
+    cols = list(case['cols'])
+    out = {}
+    kw = dict(select_format=sel, bins=pl['bins'], log_x=pl['log_x'], format='png')
+    j = cols.index(pl['p1'])
+    allv = [v[j] for v in tv.values()]
+    if pl['explicit']:
+        lo, hi = min(allv), max(allv)
+        kw['hist_range'] = (lo - 0.5 * abs(lo) - 0.25, hi + 0.5 * abs(hi) + 0.25) if not pl['log_x'] else (lo * 0.5, hi * 2.)
+    if add:
+        kw['additional'] = add
+    out['kw1'] = dict(bins=pl['bins'], log_x=pl['log_x'], hist_range=kw.get('hist_range'))
+    with common.quiet():
+        out['p1'] = capture_plots(lambda: plot_params_1d(src, pl['p1'], output_dir=os.path.join(d, 'plots1d'), **kw))
+    kw2 = dict(select_format=sel, log_x=False, log_y=False, format='png')
+    jx, jy = cols.index(pl['px']), cols.index(pl['py'])
+    xs, ys = [v[jx] for v in tv.values()], [v[jy] for v in tv.values()]
+    if pl['explicit'] or min(xs) == max(xs) or min(ys) == max(ys):
+        kw2['bounds'] = (min(xs) - abs(min(xs)) - 1., max(xs) + abs(max(xs)) + 1., min(ys) - abs(min(ys)) - 1.,
+                         max(ys) + abs(max(ys)) + 1.)
+    with common.quiet():
+        out['p2'] = capture_plots(lambda: plot_params_2d(src, pl['px'], pl['py'], output_dir=os.path.join(d, 'plots2d'), **kw2))
+    return out
+
+
 def call_all(case, d, md, src, names_of_sources, sel):
-    """one round: the four consumers on the same input `src`; returns dict of raw outputs"""
+    """one round: the consumers on the same input `src`; returns dict of raw outputs"""
     from sedfitter import write_parameters, write_parameter_ranges, extract_parameters
     from sedfitter.fit_info import FitInfoFile
-    from sedfitter.models import load_parameter_table
-    add = case['additional']
-
-    def source():
-        return src
-
+    add = additional_arg(case)
     out = {}
-    with common.quiet():
+    with common.quiet(), np.errstate(all='ignore'):
         p1 = os.path.join(d, 'wp.txt')
         if add:
-            write_parameters(source(), p1, select_format=sel, additional=add)
+            write_parameters(src, p1, select_format=sel, additional=add)
         else:
-            write_parameters(source(), p1, select_format=sel)
+            write_parameters(src, p1, select_format=sel)
         out['wp'] = parse_write_parameters(p1)
         p2 = os.path.join(d, 'wr.txt')
         if add:
-            write_parameter_ranges(source(), p2, select_format=sel, additional=add)
+            write_parameter_ranges(src, p2, select_format=sel, additional=add)
         else:
-            write_parameter_ranges(source(), p2, select_format=sel)
+            write_parameter_ranges(src, p2, select_format=sel)
         out['wr'] = parse_ranges(p2)
         xd = os.path.join(d, 'ex')
         os.makedirs(xd)
-        kw = dict(input=source(), output_prefix=xd + '/x_', select_format=sel, header=case['header'])
+        kw = dict(input=src, output_prefix=xd + '/x_', select_format=sel, header=case['header'])
         if case['suffix']:
             kw['output_suffix'] = case['suffix']
         if case['extract'] != 'all':
@@ -402,27 +593,24 @@ def call_all(case, d, md, src, names_of_sources, sel):
         for sname in names_of_sources:
             p = xd + '/x_' + sname + (case['suffix'] or '')
             out['ex'][sname] = [ln.split() for ln in open(p).read().split('\n') if ln.strip()]
-        # the table handed to the parameter plots: stripped, sorted by name, then FitInfo.filter_table
-        t = load_parameter_table(md)
-        t['MODEL_NAME'] = np.char.strip(t['MODEL_NAME'])
-        t.sort('MODEL_NAME')
+        # the table handed on by every consumer: stripped, sorted by name, then FitInfo.filter_table
+        t = prepared_table(md)
         out['ft'] = []
-        for info in FitInfoFile(source(), 'r'):
+        for info in FitInfoFile(src, 'r'):
             info.keep(sel)
             ts = info.filter_table(t, additional=add) if add else info.filter_table(t)
             out['ft'].append(dict(cols=list(ts.columns), names=[str(x) for x in ts['MODEL_NAME']],
                                   rows=[[float(ts[c][i]) for c in ts.columns if c != 'MODEL_NAME'] for i in range(len(ts))]))
+    if case.get('plots'):
+        out['plots'] = call_plots(case, d, src, sel)
     return out
 
 
-def impl_side(case, d):
-    """returns (property failures, observations, branches, relaxed)"""
+def static_branches(case):
     names = case['names']
     n = len(names)
     cols = list(case['cols'])
-    add = case['additional']
-    addk = list(add)
-    br = {'input_' + case['form'], 'additional_%d' % len(addk),
+    br = {'input_' + case['form'], 'additional_%d' % min(2, len(case['additional'])),
           'fits_from_fitter' if case['mode'] == 'fitter' else 'fits_direct',
           'extract_all' if case['extract'] == 'all' else 'extract_subset'}
     if len(cols) in (1, 4):
@@ -431,14 +619,35 @@ def impl_side(case, d):
         br.add('models_%d' % n)
     if any(t != t.strip() for t in case['table']):
         br.add('padded_table_names')
-    if [t.strip() for t in case['table']] != sorted(names):
+    if [t.strip() for t in case['table']] != sorted(t.strip() for t in case['table']):
         br.add('table_not_sorted')
+    if case.get('extra'):
+        br.add('extra_table_rows')
+    flat = [v for c in cols for v in case['cols'][c]]
+    if 'nan' in flat:
+        br.add('param_nan')
+    if 'inf' in flat or '-inf' in flat:
+        br.add('param_inf')
+    if case['mode'] == 'direct':
+        fl = [v for s in case['sources'] for k in ('chi2', 'av', 'sc') for v in s[k]]
+        if 'nan' in fl:
+            br.add('fit_nan')
+        if 'inf' in fl or '-inf' in fl:
+            br.add('fit_inf')
+    return br
+
+
+def impl_side(case, d):
+    """returns (property failures, layout differences, observations, branches, relaxed)"""
+    br = static_branches(case)
     md, infos = build(case, d)
     ranked = ranked_view(infos)          # the ORIGINAL results, before any consumer has seen them
+    if case.get('defect'):
+        return refusal_round(case, d, md, infos, ranked, br)
     src = make_input(case, d, infos)
     steps = []
     relaxed = 0
-    fails = []
+    fails, layout = [], []
     rs = rounds(case)
     br.add('history_%d' % len(rs))
     for ri, (kind, tgt) in enumerate(rs):
@@ -451,16 +660,17 @@ def impl_side(case, d):
         except Exception as ex:
             import traceback
             return (['round %d: post-processing raised %s: %s (selector %r, form %s)\n%s'
-                     % (ri + 1, type(ex).__name__, ex, sel, case['form'], traceback.format_exc()[-1200:])],
+                     % (ri + 1, type(ex).__name__, ex, sel, case['form'], traceback.format_exc()[-1200:])], [],
                     dict(ranked=ranked, steps=steps), br, 0)
         br |= {'write_parameters', 'write_parameter_ranges', 'extract_parameters', 'filter_table'}
-        f, ks, rel_ = check_round(case, ranked, sel, out, br)
+        f, lay, ks, rel_ = check_round(case, ranked, sel, out, br)
         relaxed += rel_
         hist = ' -> '.join(repr(st['sel']) for st in steps) or None
-        fails += ['round %d of %d on the same %s (earlier selectors: %s): %s' % (ri + 1, len(rs), case['form'], hist, x)
-                  for x in f]
+        pre = 'round %d of %d on the same %s (earlier selectors: %s): ' % (ri + 1, len(rs), case['form'], hist)
+        fails += [pre + x for x in f]
+        layout += [pre + x for x in lay]
         if ks is None:
-            return fails, dict(ranked=ranked, steps=steps), br, 0
+            return fails, layout, dict(ranked=ranked, steps=steps), br, 0
         if steps:
             k0, k1 = steps[-1]['ks'][0], ks[0]
             if k0 < k1:
@@ -470,29 +680,44 @@ def impl_side(case, d):
             if list(steps[-1]['sel']) == list(sel):
                 br.add('repeated_selector')
         steps.append(dict(sel=sel, ks=ks, out=out, ranked=ranked))
-    return fails, dict(ranked=ranked, steps=steps), br, relaxed
+    return fails, layout, dict(ranked=ranked, steps=steps), br, relaxed
+
+
+def check_row(row, want, fmts):
+    """one printed row against the expected entries; returns None, ('layout', msg) or ('value', msg)"""
+    if len(row) != len(want):
+        return ('layout', '%d tokens, expected %d' % (len(row), len(want)))
+    for tok, w, f in zip(row, want, fmts):
+        if f is None:
+            if tok != str(w):
+                return ('value', 'token %r, expected %r' % (tok, w))
+        elif not same_num(tok, w, f):
+            return ('value', 'token %r, expected %s' % (tok, (f % w).strip()))
+    return None
 
 
 def check_round(case, ranked, sel, out, br):
-    """the property on the outputs of one round, against the original results; returns (failures, ks, relaxed)"""
+    """the property on the outputs of one round, against the original results;
+    returns (property failures, layout differences, ks, relaxed)"""
     names = case['names']
     n = len(names)
     cols = list(case['cols'])
-    add = case['additional']
+    add = additional_arg(case)
     addk = list(add)
     relaxed = 0
-    fails = []
-    table = {nme: [case['cols'][c][i] for c in cols] for i, nme in enumerate(names)}     # the original table, by name
+    fails, layout = [], []
+    table = table_values(case)                 # the original table, by name
     head, blocks = out['wp']
     want_head = ['fit_id', 'model_name', 'chi2', 'av', 'scale'] + [c.lower() for c in cols] + addk
     if head != want_head:
-        fails.append('write_parameters: columns %r, expected %r' % (head, want_head))
+        layout.append('write_parameters: header %r, expected %r' % (head, want_head))
     groups, rng_rows = out['wr']
     if groups != want_head[2:]:
-        fails.append('write_parameter_ranges: column groups %r, expected %r' % (groups, want_head[2:]))
+        layout.append('write_parameter_ranges: column groups %r, expected %r' % (groups, want_head[2:]))
     if len(blocks) != len(ranked) or len(rng_rows) != len(ranked) or len(out['ft']) != len(ranked):
         fails.append('number of sources listed: %d / %d / %d, expected %d' % (len(blocks), len(rng_rows), len(out['ft']), len(ranked)))
-        return fails, None, 0
+        return fails, layout, None, 0
+    npar = len(cols) + len(addk)
     ks = []
     for si, r in enumerate(ranked):
         k, marg = expected_count(sel, r['chi2'], r['n_data'])
@@ -510,46 +735,227 @@ def check_round(case, ranked, sel, out, br):
             fails.append('write_parameters source line (%r, n_data %d, n_fits %d); expected (%r, %d, %d) for selector %r'
                          % (b['name'], b['n_data'], b['n_fits'], r['name'], r['n_data'], k, sel))
         for i, row in enumerate(b['rows'][:k]):
-            want = [str(i + 1), sel_names[i], f3(r['chi2'][i]), f3(r['av'][i]), f3(r['sc'][i])] + [e3(v) for v in exp_rows[i]]
-            if row != want:
+            want = [i + 1, sel_names[i], r['chi2'][i], r['av'][i], r['sc'][i]] + exp_rows[i]
+            res = check_row(row, want, ['%d', None, '%10.3f', '%10.3f', '%10.3f'] + ['%10.3e'] * npar)
+            if res:
                 shown = row[1] if len(row) > 1 else None
-                fails.append('write_parameters source %r fit %d: printed %r; fit %d is model %r whose table row + additional '
-                             'is %r (table row of the printed name %r: %r)'
-                             % (r['name'], i + 1, row, i + 1, sel_names[i], want, shown, table.get(shown)))
+                msg = ('write_parameters source %r fit %d: printed %r (%s); fit %d is model %r whose table row + '
+                       'additional is %r (table row of the printed name %r: %r)'
+                       % (r['name'], i + 1, row, res[1], i + 1, sel_names[i], exp_rows[i], shown, table.get(shown)))
+                (layout if res[0] == 'layout' else fails).append(msg)
         # ---- write_parameter_ranges
         rr = rng_rows[si]
         if (rr['name'], rr['n_data'], rr['n_fits']) != (r['name'], r['n_data'], k):
             fails.append('write_parameter_ranges source line (%r, %d, %d); expected (%r, %d, %d)'
                          % (rr['name'], rr['n_data'], rr['n_fits'], r['name'], r['n_data'], k))
         series = [list(r['chi2'][:k]), list(r['av'][:k]), list(r['sc'][:k])] + \
-                 [[row[j] for row in exp_rows] for j in range(len(cols) + len(addk))]
-        want_trip = [['-', '-', '-'] if k == 0 else [e3(min(s)), e3(s[0]), e3(max(s))] for s in series]
-        if rr['trip'] != want_trip:
-            fails.append('write_parameter_ranges source %r: printed %r; min / rank-1 / max over the %d selected fits: %r'
-                         % (r['name'], rr['trip'], k, want_trip))
+                 [[row[j] for row in exp_rows] for j in range(npar)]
+        if len(rr['trip']) != len(series) or any(len(t) != 3 for t in rr['trip']):
+            layout.append('write_parameter_ranges source %r: %d groups of tokens, expected %d triples' % (r['name'], len(rr['trip']), len(series)))
+        else:
+            for gi, (t, s) in enumerate(zip(rr['trip'], series)):
+                if k == 0:
+                    if any(tok_num(x) is not None for x in t):
+                        fails.append('write_parameter_ranges source %r group %d: numbers %r printed for no selected fit' % (r['name'], gi, t))
+                    elif t != ['-', '-', '-']:
+                        layout.append('write_parameter_ranges source %r group %d: placeholder %r' % (r['name'], gi, t))
+                    continue
+                s = [float(x) for x in s]
+                want3 = [nanmin_(s), s[0], nanmax_(s)]
+                if all(math.isnan(x) for x in s):
+                    br.add('range_all_nan')
+                if not all(same_num(tok, w, '%10.3e') for tok, w in zip(t, want3)):
+                    fails.append('write_parameter_ranges source %r group %d: printed %r; min / rank-1 / max over the %d '
+                                 'selected fits (NaN skipped): %r' % (r['name'], gi, t, k, [('%10.3e' % w).strip() for w in want3]))
         # ---- extract_parameters
         ex = out['ex'][r['name']]
         pars = (['MODEL_NAME'] + cols) if case['extract'] == 'all' else list(case['extract'])
         if case['header']:
             if not ex or ex[0] != ['CHI2', 'AV', 'SC'] + pars:
-                fails.append('extract_parameters header %r, expected %r' % (ex[:1], ['CHI2', 'AV', 'SC'] + pars))
+                layout.append('extract_parameters header %r, expected %r' % (ex[:1], ['CHI2', 'AV', 'SC'] + pars))
             ex = ex[1:]
-        want_ex = [[e11(r['chi2'][i]), e11(r['av'][i]), e11(r['sc'][i])] +
-                   [sel_names[i] if p == 'MODEL_NAME' else e11(table[sel_names[i]][cols.index(p)]) for p in pars]
-                   for i in range(k)]
-        if ex != want_ex:
-            fails.append('extract_parameters source %r: rows %r; expected (by model name) %r' % (r['name'], ex, want_ex))
+        if len(ex) != k:
+            fails.append('extract_parameters source %r: %d rows, expected %d' % (r['name'], len(ex), k))
+        for i, row in enumerate(ex[:k]):
+            want = [r['chi2'][i], r['av'][i], r['sc'][i]] + \
+                   [sel_names[i] if p == 'MODEL_NAME' else table[sel_names[i]][cols.index(p)] for p in pars]
+            res = check_row(row, want, ['%11.3e'] * 3 + [None if p == 'MODEL_NAME' else '%11.3e' for p in pars])
+            if res:
+                msg = 'extract_parameters source %r row %d: %r (%s); expected (by model name %r) %r' % (r['name'], i + 1, row, res[1], sel_names[i], want)
+                (layout if res[0] == 'layout' else fails).append(msg)
         # ---- FitInfo.filter_table on the prepared table
         ft = out['ft'][si]
-        if ft['names'] != list(sel_names) or ft['rows'] != [[float(v) for v in row] for row in exp_rows] or \
-                ft['cols'] != ['MODEL_NAME'] + cols + addk:
+        same_rows = len(ft['rows']) == len(exp_rows) and all(
+            len(a) == len(b_) and all((x == y) or (math.isnan(x) and math.isnan(y)) for x, y in zip(a, b_))
+            for a, b_ in zip(ft['rows'], exp_rows))
+        if ft['names'] != list(sel_names) or not same_rows or ft['cols'] != ['MODEL_NAME'] + cols + addk:
             fails.append('filter_table source %r: columns %r names %r rows %r; expected %r %r %r'
                          % (r['name'], ft['cols'], ft['names'], ft['rows'], ['MODEL_NAME'] + cols + addk,
                             list(sel_names), exp_rows))
-    return fails, ks, relaxed
+        # ---- the parameter plots
+        if 'plots' in out:
+            fails += check_plots(case, r, k, sel_names, table, out['plots'], br)
+    return fails, layout, ks, relaxed
+
+
+def check_plots(case, r, k, sel_names, table, pl_out, br):
+    """what plot_params_1d / plot_params_2d drew for this source against the values looked up by model name"""
+    fails = []
+    pl = case['plots']
+    cols = list(case['cols'])
+    br |= {'plot_params_1d', 'plot_params_2d', 'plots_input_' + case['form'],
+           'plots_selected_0' if k == 0 else 'plots_selected_some'}
+    if pl['log_x']:
+        br.add('plot_1d_log_x')
+    if case['additional']:
+        br.add('plot_1d_additional')
+    if any(t != t.strip() for t in case['table']) and [t.strip() for t in case['table']] != sorted(t.strip() for t in case['table']):
+        br.add('plots_padded_unsorted_table')
+    # 1-d: hatched polygon = histogram of the selected fits' values over the bin edges
+    j = cols.index(pl['p1'])
+    recs = [x for x in pl_out['p1'] if x['file'] == r['name'] + '.png']
+    if len(recs) != 1 or len(recs[0]['hatched']) != 1:
+        fails.append('plot_params_1d source %r: %d saved figures / %r hatched polygons, expected 1 / 1'
+                     % (r['name'], len(recs), [len(x['hatched']) for x in recs]))
+    else:
+        xy = recs[0]['hatched'][0]
+        bins = pl['bins']
+        allv = np.array([v[j] for v in table.values()], dtype=float)
+        lo, hi = pl_out['kw1']['hist_range'] or (allv.min(), allv.max())
+        vals = np.array([table[nme][j] for nme in sel_names], dtype=float)
+        if pl['log_x']:
+            hist, edges = np.histogram(np.log10(vals), bins=bins, range=[np.log10(lo), np.log10(hi)])
+            edges = 10. ** edges
+        else:
+            hist, edges = np.histogram(vals, bins=bins, range=[lo, hi])
+        if len(xy) < 2 * bins:
+            fails.append('plot_params_1d source %r: polygon with %d vertices, expected >= %d' % (r['name'], len(xy), 2 * bins))
+        else:
+            got_h = [xy[2 * i][1] for i in range(bins)]
+            got_e = [xy[2 * i][0] for i in range(bins)] + [xy[2 * bins - 1][0]]
+            want_h = [max(float(h), 0.01) for h in hist]
+            ok_e = all(abs(a - b) <= 1e-9 * (abs(a) + abs(b)) + 1e-300 for a, b in zip(got_e, edges))
+            if got_h != want_h or [xy[2 * i + 1][1] for i in range(bins)] != want_h or not ok_e:
+                fails.append('plot_params_1d source %r parameter %s: hatched histogram %r over edges %r; histogram of the '
+                             'values of the %d selected fits looked up by model name (%r): %r over %r'
+                             % (r['name'], pl['p1'], got_h, [float(x) for x in got_e], k, [float(x) for x in vals],
+                                want_h, [float(x) for x in edges]))
+    # 2-d: scatter offsets = (x, y) parameters of the selected fits, in rank order
+    jx, jy = cols.index(pl['px']), cols.index(pl['py'])
+    recs = [x for x in pl_out['p2'] if x['file'] == r['name'] + '.png']
+    if len(recs) != 1 or len(recs[0]['scatter']) != 1:
+        fails.append('plot_params_2d source %r: %d saved figures / %r scatter collections, expected 1 / 1'
+                     % (r['name'], len(recs), [len(x['scatter']) for x in recs]))
+    else:
+        pts = [tuple(float(v) for v in p) for p in recs[0]['scatter'][0]]
+        want = [(table[nme][jx], table[nme][jy]) for nme in sel_names]
+        if pts != want:
+            fails.append('plot_params_2d source %r (%s, %s): plotted points %r; parameters of the %d selected fits looked '
+                         'up by model name: %r' % (r['name'], pl['px'], pl['py'], pts, k, want))
+    return fails
+
+
+# ----------------------------------------------------------------------------- compared refusals
+
+ERR_CLASS = {'dupColumn': 'Exception', 'sortFailed': 'Exception', 'keyError': 'KeyError', 'indexError': 'IndexError',
+             'noModelName': 'ValueError'}
+
+
+def model_filter_full(case, cols, mn, prep=1):
+    """driver `filtertablefull`; returns ('ok', positions, names, extras) or ('err', kind)"""
+    add = additional_arg(case)
+    line = ['filtertablefull %d' % prep, names_line(cols), names_line(case['table']), names_line(mn), str(len(add))]
+    for a, dct in add.items():
+        line += [enc(a), str(len(dct))]
+        for nme, v in dct.items():
+            line += [enc(nme), rat(v) if math.isfinite(v) else '0']      # values do not decide a refusal
+    raw = common.driver().ask_raw(' '.join(line))
+    toks = raw.split()
+    if toks and toks[0] == 'err':
+        return ('err', toks[1] if len(toks) > 1 else '?')
+    if not toks or toks[0] != 'ok':
+        raise common.DriverError('driver answered: ' + raw[:300])
+    t = common.Toks(toks[1:])
+    pos = t.nats()
+    nm = read_names(t)
+    extras = [[float(x) for x in t.rats()] for _ in nm]
+    return ('ok', pos, nm, extras)
+
+
+def refusal_round(case, d, md, infos, ranked, br):
+    """one round on an input the code must refuse (or, for a dictionary that lacks an unselected model, accept):
+    implementation outcome class against the model's `filterTableFull`"""
+    from sedfitter import write_parameters, write_parameter_ranges
+    from sedfitter.fit_info import FitInfoFile
+    src = make_input(case, d, infos)
+    sel = make_selector(case, ranked)
+    add = additional_arg(case)
+    cols = ['MODEL_NAME'] + list(case['cols'])
+    dis = []
+    # model: sources in order, first refusal wins
+    want = None
+    ks = []
+    for r in ranked:
+        k, _ = expected_count(sel, r['chi2'], r['n_data'])
+        ks.append(k)
+        mcols = list(case['cols']) if case['defect'] == 'no_model_name' else cols
+        m = model_filter_full(case, mcols, r['names'][:k])
+        if m[0] == 'err' and want is None:
+            want = ERR_CLASS.get(m[1], m[1])
+
+    def outcome(fn):
+        try:
+            with common.quiet(), np.errstate(all='ignore'):
+                fn()
+            return None
+        except Exception as ex:
+            return type(ex).__name__
+
+    if case['defect'] == 'no_model_name':
+        br.add('refuse_no_model_name')
+        t = prepared_table(md)
+        t.remove_column('MODEL_NAME')
+        got = {}
+        for info in FitInfoFile(src, 'r'):
+            info.keep(sel)
+            got['filter_table'] = outcome(lambda: info.filter_table(t))
+            break
+    else:
+        t = prepared_table(md)
+
+        def direct():
+            for info in FitInfoFile(src, 'r'):
+                info.keep(sel)
+                info.filter_table(t, additional=add)
+        got = {'write_parameters': outcome(lambda: write_parameters(src, os.path.join(d, 'wp.txt'), select_format=sel, additional=add)),
+               'write_parameter_ranges': outcome(lambda: write_parameter_ranges(src, os.path.join(d, 'wr.txt'), select_format=sel, additional=add)),
+               'filter_table': outcome(direct)}
+        if case['defect'] == 'dup_key':
+            br.add('refuse_dup_column')
+        else:
+            br.add('refuse_missing_key' if want else 'missing_key_not_selected')
+    for what, g in got.items():
+        if g != want:
+            dis.append('%s (%s, selector %r, selected %r): implementation %s, model %s'
+                       % (what, case['defect'], sel, ks, 'raised ' + g if g else 'returned', 'raises ' + want if want else 'returns'))
+    # refusals are model / implementation correspondences: reported as layout-class (violates=None)
+    return [], dis, dict(ranked=ranked, steps=[], refusal=True), br, 0
 
 
 # ----------------------------------------------------------------------------- model side
+
+def eftok(v):
+    v = float(v)
+    if math.isnan(v):
+        return 'nan'
+    if math.isinf(v):
+        return 'inf' if v > 0 else '-inf'
+    return rat(v)
+
+
+def efval(tok):
+    return float(tok) if tok in ('nan', 'inf', '-inf') else float(Fraction(tok))
+
 
 def model_side(case, obs):
     """for each round, for each source: (table positions, names, extras, ranges per printed group, n_data, n_fits),
@@ -566,34 +972,37 @@ def compare_model(case, obs, mod):
 
 def model_round(case, obs):
     drv = common.driver()
-    add = case['additional']
+    add = additional_arg(case)
     addk = list(add)
     cols = list(case['cols'])
-    names = case['names']
+    tv = table_values(case)
     res = []
     for r, k in zip(obs['ranked'], obs['ks']):
         mn = r['names'][:k]
+        # additional values travel as exact doubles; NaN / inf entries are passed through the harness by name
         line = ['filtertable 1', names_line(case['table']), names_line(mn), str(len(addk))]
         for a in addk:
             line.append(str(len(add[a])))
             for nme, v in add[a].items():
-                line += [enc(nme), rat(v)]
+                line += [enc(nme), rat(v) if math.isfinite(v) else '0']
         t = drv.ask(' '.join(line))
         pos = t.nats()
         nm = read_names(t)
-        extras = [t.rats() for _ in nm]
-        # parameter file rows, in file order
-        tidx = [names.index(x.strip()) for x in case['table']]
-        rows = [[case['cols'][c][tidx[p]] for c in cols] + [float(x) for x in extras[i]] for i, p in enumerate(pos)]
+        extras = [[float(x) for x in t.rats()] for _ in nm]
+        # parameter file rows, in file order; non-finite additional values restored by the name the model attached
+        rows = []
+        for i, p in enumerate(pos):
+            ex = [v if math.isfinite(add[a][nm[i]]) else add[a][nm[i]] for a, v in zip(addk, extras[i])]
+            rows.append(tv[case['table'][p].strip()] + ex)
         series = [list(r['chi2'][:k]), list(r['av'][:k]), list(r['sc'][:k])] + \
                  [[row[j] for row in rows] for j in range(len(cols) + len(addk))]
         trip = []
         for s in series:
-            tt = drv.ask('ranges %d %s' % (len(s), ' '.join(rat(float(x)) for x in s)))
+            tt = drv.ask('ranges %d %s' % (len(s), ' '.join(eftok(x) for x in s)))
             if tt.nat() == 0:
                 trip.append(None)
             else:
-                trip.append([float(tt.rat()) for _ in range(3)])
+                trip.append([efval(tt.tok()) for _ in range(3)])
         tc = drv.ask('parcounts %d %s %d' % (len(r['flags']), ' '.join(str(f) for f in r['flags']), k))
         res.append(dict(pos=pos, names=nm, rows=rows, trip=trip, n_data=tc.nat(), n_fits=tc.nat()))
     return res
@@ -601,7 +1010,12 @@ def model_round(case, obs):
 
 def unsigned_zero(tok):
     """the model computes in exact rationals: the sign of a floating-point zero is not modelled"""
-    return tok[1:] if tok.startswith('-') and float(tok) == 0. else tok
+    v = tok_num(tok)
+    return tok[1:] if v is not None and tok.startswith('-') and v == 0. else tok
+
+
+def feq(a, b):
+    return a == b or (math.isnan(a) and math.isnan(b))
 
 
 def compare_round(case, obs, mod):
@@ -616,15 +1030,19 @@ def compare_round(case, obs, mod):
         if m['names'] != list(r['names'][:k]):
             dis.append('source %r: model filterTable names %r, fit names %r' % (r['name'], m['names'], r['names'][:k]))
         for i, row in enumerate(b['rows'][:k]):
-            if [unsigned_zero(x) for x in row[5:]] != [e3(v) for v in m['rows'][i]]:
+            if len(row[5:]) != len(m['rows'][i]) or not all(same_num(unsigned_zero(x), v, '%10.3e') for x, v in zip(row[5:], m['rows'][i])):
                 dis.append('source %r fit %d: printed parameters %r; model shows parameter-file row %d: %r'
-                           % (r['name'], i + 1, row[5:], m['pos'][i], [e3(v) for v in m['rows'][i]]))
+                           % (r['name'], i + 1, row[5:], m['pos'][i], m['rows'][i]))
         ft = obs['out']['ft'][si]
-        if ft['rows'] != [[float(v) for v in row] for row in m['rows']]:
+        if len(ft['rows']) != len(m['rows']) or not all(len(a) == len(b_) and all(feq(x, float(y)) for x, y in zip(a, b_))
+                                                          for a, b_ in zip(ft['rows'], m['rows'])):
             dis.append('source %r: filter_table rows %r, model %r' % (r['name'], ft['rows'], m['rows']))
-        want = [['-', '-', '-'] if t is None else [e3(v) for v in t] for t in m['trip']]
-        if [[unsigned_zero(x) if x != '-' else x for x in t] for t in rng_rows[si]['trip']] != want:
-            dis.append('source %r: printed ranges %r, model paramRanges %r' % (r['name'], rng_rows[si]['trip'], want))
+        for gi, (t, w) in enumerate(zip(rng_rows[si]['trip'], m['trip'])):
+            if w is None:
+                if any(tok_num(x) is not None for x in t):
+                    dis.append('source %r group %d: printed ranges %r, model: no selected fit' % (r['name'], gi, t))
+            elif len(t) != 3 or not all(same_num(unsigned_zero(x), v, '%10.3e') for x, v in zip(t, w)):
+                dis.append('source %r group %d: printed ranges %r, model paramRangesEF %r' % (r['name'], gi, t, w))
     return dis
 
 
@@ -636,22 +1054,25 @@ def nontrivial(case, obs):
         for r, k in zip(obs['ranked'], st['ks']):
             if any(tpos[nme] != i for i, nme in enumerate(r['names'][:k])):
                 return True
-    return False
+    return bool(obs.get('refusal'))
 
 
 def run_case(case):
     d = tempfile.mkdtemp(prefix='c09_')
     try:
-        fails, obs, br, relaxed = impl_side(case, d)
+        fails, layout, obs, br, relaxed = impl_side(case, d)
         key = common.canon_hash(case)
         if fails:
             return CaseResult(False, detail='\n'.join(fails[:5]), violates=True, branches=br, key=key)
+        if layout:
+            return CaseResult(False, detail='\n'.join(layout[:5]), violates=None, branches=br, key=key)
         mod = model_side(case, obs)
         dis = compare_model(case, obs, mod)
         if dis:
             return CaseResult(False, detail='\n'.join(dis[:5]), violates=None, branches=br, key=key)
         sample = dict(n_models=len(case['names']), table=case['table'], columns=list(case['cols']),
-                      additional=list(case['additional']), form=case['form'], mode=case['mode'],
+                      additional=list(case['additional']), form=case['form'], mode=case['mode'], defect=case.get('defect'),
+                      plots=bool(case.get('plots')),
                       history=[dict(selector=list(st['sel']), selected=st['ks']) for st in obs['steps']],
                       fit_order=obs['ranked'][0]['names'])
         return CaseResult(True, branches=br, key=key, nontrivial=nontrivial(case, obs), sample=sample, relaxed=relaxed)
@@ -662,9 +1083,11 @@ def run_case(case):
 def search(seed, tier, disagreeing):
     """the property itself on the real code (lookup by model name in the original table; no model)"""
     found, tried = [], 0
-    sweep = list(disagreeing)
+    sweep = [c for c in disagreeing if not c.get('defect')]
     for i in range(60 if tier == 'quick' else 300):
-        sweep.append(gen_case(case_rng(seed, PID + '/search', i)))
+        c = gen_case(case_rng(seed, PID + '/search', i))
+        if not c.get('defect'):
+            sweep.append(c)
     for case in sweep:
         d = tempfile.mkdtemp(prefix='c09s_')
         try:
@@ -694,7 +1117,7 @@ def shrink(case):
     cur = case
     for cand in (lambda c: dict(c, sources=c['sources'][:1]) if len(c['sources']) > 1 else None,
                  lambda c: dict(c, additional={}) if c['additional'] else None,
-                 lambda c: dict(c, cols=dict(list(c['cols'].items())[:1]), extract='all') if len(c['cols']) > 1 else None):
+                 lambda c: dict(c, plots=None) if c.get('plots') else None):
         c = cand(cur)
         if c is not None and fails(c):
             cur = c
